@@ -10,6 +10,7 @@ package checks
 import (
 	"fmt"
 	"math/big"
+	"strconv"
 	"strings"
 
 	"github.com/ethereum/go-ethereum/common"
@@ -36,15 +37,20 @@ func c02ChildAddr(i int) common.Address {
 }
 
 type c02Gadget struct {
-	Op    string    `json:"op"`
-	K     uint64    `json:"k,omitempty"`
-	V     uint64    `json:"v,omitempty"`
-	Kind  string    `json:"kind,omitempty"` // call | callcode | delegatecall | staticcall
-	Tgt   string    `json:"tgt,omitempty"`  // child | again (the child called last by this frame) | kid | self | eoa | zero | never | ecrec
-	Val   uint64    `json:"val,omitempty"`
-	Gas   string    `json:"gas,omitempty"`  // all | 2300 | 0
-	Init  string    `json:"init,omitempty"` // empty | rt1 | revert | sd | sstore-rt
-	Child *c02Frame `json:"child,omitempty"`
+	Op   string `json:"op"`
+	K    uint64 `json:"k,omitempty"`
+	V    uint64 `json:"v,omitempty"`
+	Kind string `json:"kind,omitempty"` // call | callcode | delegatecall | staticcall
+	// Tgt: child | again (the child called last by this frame) | kid | self | eoa | zero | never | ecrec |
+	// caller (CALLER) | #i (the i-th child frame contract of the program, pre-order) | @n (the address held in result
+	// word n of this frame, e.g. what a CREATE returned) | 0x.. (literal address)
+	Tgt    string    `json:"tgt,omitempty"`
+	Val    uint64    `json:"val,omitempty"`
+	ValBal bool      `json:"valbal,omitempty"` // CALL / CALLCODE: the value is SELFBALANCE (forward everything the frame holds)
+	Out    uint64    `json:"out,omitempty"`    // call: number of return words copied into the result words (0 = 1)
+	Gas    string    `json:"gas,omitempty"`    // all | 2300 | 0
+	Init   string    `json:"init,omitempty"`   // empty | rt1 | revert | sd | sstore-rt ; "" with Child: init code deploying the child frame as runtime
+	Child  *c02Frame `json:"child,omitempty"`
 }
 
 type c02Frame struct {
@@ -69,8 +75,19 @@ func (g c02Gadget) Shape() string {
 	case "log1":
 		return "log1"
 	case "call":
-		return fmt.Sprintf("%s(%s,v%d,g%s)", g.Kind, g.Tgt, g.Val, g.Gas)
+		v := fmt.Sprintf("v%d", g.Val)
+		if g.ValBal {
+			v = "vSELFBALANCE"
+		}
+		s := fmt.Sprintf("%s(%s,%s,g%s)", g.Kind, g.Tgt, v, g.Gas)
+		if g.Out > 1 {
+			s += fmt.Sprintf("/out%d", g.Out)
+		}
+		return s
 	case "create", "create2":
+		if g.Init == "" && g.Child != nil {
+			return fmt.Sprintf("%s(frame,v%d)", g.Op, g.Val)
+		}
 		return fmt.Sprintf("%s(%s,v%d)", g.Op, g.Init, g.Val)
 	case "selfdestruct", "balance", "extcodesize", "extcodehash":
 		return fmt.Sprintf("%s(%s)", g.Op, g.Tgt)
@@ -135,10 +152,32 @@ func (f *c02Frame) depth() int {
 	return d
 }
 
-// memory layout of a frame
+// memory layout of a frame: result words from 0, then the scratch area (init code of CREATE, LOG data) at 0x200 or,
+// for a frame with more than 16 result words, right behind them
 const (
-	c02Scratch = 0x200 // init code of CREATE, LOG data
+	c02Scratch = 0x200
 )
+
+// c02GadgetWords is the number of result words a gadget occupies.
+func c02GadgetWords(g c02Gadget) uint64 {
+	switch g.Op {
+	case "sload", "create", "create2", "balance", "extcodesize", "extcodehash", "selfbalance":
+		return 1
+	case "call":
+		if g.Out > 1 {
+			return 1 + g.Out
+		}
+		return 2
+	}
+	return 0
+}
+
+func c02FrameWords(f *c02Frame) (n uint64) {
+	for _, g := range f.G {
+		n += c02GadgetWords(g)
+	}
+	return n
+}
 
 func c02InitCode(kind string) []byte {
 	switch kind {
@@ -162,6 +201,7 @@ var c02InitKinds = []string{"empty", "rt1", "revert", "sd", "sstore-rt"}
 type c02Compiler struct {
 	next     int
 	Children []c02UAcct
+	Inits    [][]byte // init code of every CREATE / CREATE2 that deploys a child frame
 }
 
 func (cc *c02Compiler) target(c *asm.Code, g c02Gadget, childAddr common.Address) {
@@ -180,21 +220,44 @@ func (cc *c02Compiler) target(c *asm.Code, g c02Gadget, childAddr common.Address
 		c.PushAddr(c02Never)
 	case "ecrec":
 		c.PushU(1)
+	case "caller":
+		c.Op(asm.CALLER)
 	default:
-		panic("target " + g.Tgt)
+		switch {
+		case strings.HasPrefix(g.Tgt, "#"):
+			i, err := strconv.Atoi(g.Tgt[1:])
+			if err != nil || i < 0 {
+				panic("target " + g.Tgt)
+			}
+			c.PushAddr(c02ChildAddr(i))
+		case strings.HasPrefix(g.Tgt, "@"):
+			n, err := strconv.ParseUint(g.Tgt[1:], 10, 32)
+			if err != nil {
+				panic("target " + g.Tgt)
+			}
+			c.PushU(32 * n).Op(asm.MLOAD)
+		case strings.HasPrefix(g.Tgt, "0x") && common.IsHexAddress(g.Tgt):
+			c.PushAddr(common.HexToAddress(g.Tgt))
+		default:
+			panic("target " + g.Tgt)
+		}
 	}
 }
 
 // emit appends the code of frame f to c (c may already hold code: jump targets are absolute positions in c).
 func (cc *c02Compiler) emit(c *asm.Code, f *c02Frame) {
 	// recursion guard: a frame entered with 2 or more bytes of call data stops at once. Calls to a child frame pass the
-	// caller's CALLDATASIZE on, calls to "self" pass CALLDATASIZE+1, top-level messages carry no data - so a frame body
+	// caller's CALLDATASIZE on, calls to "self" pass CALLDATASIZE+1, calls to "caller" CALLDATASIZE+2, top-level messages carry no data - so a frame body
 	// is re-entered at most twice along any call chain and every program terminates after a bounded number of frames.
 	c.Op(asm.CALLDATASIZE).PushU(2).Op(asm.GT) // 2 > size
 	pos := len(c.B)
 	dest := pos + 3 + 1 + 1
 	c.Op(0x61, byte(dest>>8), byte(dest)).Op(asm.JUMPI).Op(asm.STOP).Op(asm.JUMPDEST)
 
+	scratch := uint64(c02Scratch)
+	if n := 32 * c02FrameWords(f); n > scratch {
+		scratch = n
+	}
 	word := uint64(0)            // next free result word
 	var lastChild common.Address // target "again": the child frame contract most recently called by this frame
 	store := func() { c.PushU(32 * word).Op(asm.MSTORE); word++ }
@@ -206,10 +269,13 @@ func (cc *c02Compiler) emit(c *asm.Code, f *c02Frame) {
 			c.PushU(g.K).Op(asm.SLOAD)
 			store()
 		case "log0":
-			c.PushU(0).PushU(c02Scratch).Op(asm.LOG0)
+			c.PushU(0).PushU(scratch).Op(asm.LOG0)
 		case "log1":
-			c.PushU(0xab).PushU(c02Scratch).Op(asm.MSTORE8)
-			c.PushU(7).PushU(1).PushU(c02Scratch).Op(asm.LOG1)
+			c.PushU(0xab).PushU(scratch).Op(asm.MSTORE8)
+			c.PushU(7).PushU(1).PushU(scratch).Op(asm.LOG1)
+		case "logbal": // LOG1(topic 8, data = SELFBALANCE): the frame's own balance becomes part of the receipt even when the frame ends in SELFDESTRUCT
+			c.Op(asm.SELFBALANCE).PushU(scratch).Op(asm.MSTORE)
+			c.PushU(8).PushU(32).PushU(scratch).Op(asm.LOG1)
 		case "call":
 			var childAddr common.Address
 			if g.Tgt == "child" {
@@ -232,20 +298,31 @@ func (cc *c02Compiler) emit(c *asm.Code, f *c02Frame) {
 				childAddr = lastChild
 			}
 			flagWord, outWord := word, word+1
-			c.PushU(32).PushU(32 * outWord) // outLen, outOff
-			c.Op(asm.CALLDATASIZE)          // inLen
+			nOut := uint64(1)
+			if g.Out > 1 {
+				nOut = g.Out
+			}
+			c.PushU(32 * nOut).PushU(32 * outWord) // outLen, outOff
+			c.Op(asm.CALLDATASIZE)                 // inLen
 			if g.Tgt == "self" {
 				c.PushU(1).Op(asm.ADD)
+			}
+			if g.Tgt == "caller" {
+				c.PushU(2).Op(asm.ADD) // the calling frame is not re-entered: it stops at once (a plain receive)
 			}
 			c.PushU(0) // inOff
 			var op byte
 			switch g.Kind {
-			case "call":
+			case "call", "callcode":
 				op = asm.CALL
-				c.PushU(g.Val)
-			case "callcode":
-				op = asm.CALLCODE
-				c.PushU(g.Val)
+				if g.Kind == "callcode" {
+					op = asm.CALLCODE
+				}
+				if g.ValBal {
+					c.Op(asm.SELFBALANCE)
+				} else {
+					c.PushU(g.Val)
+				}
 			case "delegatecall":
 				op = asm.DELEGATECALL
 			case "staticcall":
@@ -266,16 +343,24 @@ func (cc *c02Compiler) emit(c *asm.Code, f *c02Frame) {
 			}
 			c.Op(op)
 			c.PushU(32 * flagWord).Op(asm.MSTORE)
-			word += 2
+			word += 1 + nOut
 		case "create", "create2":
-			init := c02InitCode(g.Init)
+			var init []byte
+			if g.Init == "" && g.Child != nil {
+				sub := asm.New()
+				cc.emit(sub, g.Child)
+				init = asm.InitCode(sub.Bytes())
+				cc.Inits = append(cc.Inits, init)
+			} else {
+				init = c02InitCode(g.Init)
+			}
 			if len(init) > 0 {
-				c.MstoreBytes(c02Scratch, init)
+				c.MstoreBytes(scratch, init)
 			}
 			if g.Op == "create2" {
 				c.PushU(0) // salt
 			}
-			c.PushU(uint64(len(init))).PushU(c02Scratch).PushU(g.Val)
+			c.PushU(uint64(len(init))).PushU(scratch).PushU(g.Val)
 			if g.Op == "create2" {
 				c.Op(asm.CREATE2)
 			} else {
@@ -312,22 +397,31 @@ func (cc *c02Compiler) emit(c *asm.Code, f *c02Frame) {
 
 // c02Compile compiles one frame tree; children are returned as universe accounts (nonce 1, balance 0).
 func c02Compile(f *c02Frame) (root []byte, children []c02UAcct) {
-	cc := &c02Compiler{}
-	c := asm.New()
-	cc.emit(c, f)
-	return c.Bytes(), cc.Children
+	root, cc := c02CompileCC(f, nil)
+	return root, cc.Children
 }
 
-// c02CompileTwo compiles the dispatcher used by two-message cases: ORIGIN == S2 runs q, everything else runs p.
-func c02CompileTwo(p, q *c02Frame) (root []byte, children []c02UAcct) {
-	cc := &c02Compiler{}
+// c02CompileCC compiles p (and, when q is set, the two-message dispatcher) and returns the compiler with everything it collected.
+func c02CompileCC(p, q *c02Frame) (root []byte, cc *c02Compiler) {
+	cc = &c02Compiler{}
+	if q == nil {
+		c := asm.New()
+		cc.emit(c, p)
+		return c.Bytes(), cc
+	}
 	pc := asm.NewProg()
 	pc.Op(asm.ORIGIN).PushAddr(c02S2).Op(asm.EQ)
 	pc.JumpIf("q")
 	cc.emit(&pc.Code, p)
 	pc.Label("q")
 	cc.emit(&pc.Code, q)
-	return pc.Assemble(), cc.Children
+	return pc.Assemble(), cc
+}
+
+// c02CompileTwo compiles the dispatcher used by two-message cases: ORIGIN == S2 runs q, everything else runs p.
+func c02CompileTwo(p, q *c02Frame) (root []byte, children []c02UAcct) {
+	root, cc := c02CompileCC(p, q)
+	return root, cc.Children
 }
 
 // c02CreateCandidates lists every address a CREATE / CREATE2 of the grammar can produce when executed in one of the
